@@ -5,6 +5,12 @@
 //!     (text compared byte for byte), and write-then-parse (`r3.rt`);
 //!   * strings: `DateTime::parse_from_rfc3339` on grammar-generated strings, single-edit mutations of
 //!     valid strings at every position, hand-written near misses, arbitrary Unicode (ok/err + value).
+//!   * the other instantiations of `DateTime<Tz>::to_rfc3339{,_opts}` (audit 2, M2): `DateTime<Utc>` whenever the
+//!     offset is 0 and `DateTime<Local>` under whole-minute `TZ` values (fresh thread per zone) must print the
+//!     text of the `DateTime<FixedOffset>` carrying the same instant and offset (`Utc::fix`, `FixedOffset::fix`,
+//!     `Local`'s offset are all `self.offset.fix()` in the writer); the text is then judged like any other;
+//!   * `SecondsFormat::__NonExhaustive` (doc-hidden, outside "the five precision options"): the documented
+//!     `unreachable!()` panic is confirmed under `catch_unwind` and counted, not reported as a failure.
 //! Direct oracles (implementation vs property, no model involved):
 //!   * every rendering with wall-clock year 0-9999 and whole-minute offset is accepted by an independent,
 //!     regex-free grammar checker written here, shows exactly the wall-clock fields (computed with an
@@ -14,7 +20,7 @@
 //!     its fields are valid, and then the returned value is the denoted one.
 use super::c01::{day_num, month_len, yof};
 use crate::ctx::*;
-use chrono::{DateTime, FixedOffset, NaiveDate, NaiveDateTime, NaiveTime, SecondsFormat, TimeZone, Timelike};
+use chrono::{DateTime, FixedOffset, Local, NaiveDate, NaiveDateTime, NaiveTime, Offset, SecondsFormat, TimeZone, Timelike, Utc};
 
 const EPOCH_DAY: i64 = 719163;
 const SFS: [SecondsFormat; 5] =
@@ -334,6 +340,10 @@ fn check_rendering(c: &mut Ctx, v: &Val, sf: usize, use_z: bool, text: &str) {
     if f.zulu != (use_z && v.off == 0) {
         c.fail("Z used although not requested / offset not zero, or not used although requested", &what);
     }
+    if f.zulu && !text.ends_with('Z') {
+        // the grammar (and the reader) take `z` too; the writer must print the upper-case letter (audit 2, L3)
+        c.fail("rendering does not end in the upper-case Z", &what);
+    }
     if !f.zulu {
         let a = (v.off as i64).abs();
         if f.neg != (v.off < 0) || f.oh != a / 3600 || f.om != a / 60 % 60 {
@@ -368,6 +378,143 @@ fn check_rendering(c: &mut Ctx, v: &Val, sf: usize, use_z: bool, text: &str) {
         }
         Ok(Err(e)) => c.fail("rendering is rejected by parse_from_rfc3339", &format!("{} {:?}", what, e)),
         Err(()) => c.fail("parse_from_rfc3339 panicked on a rendering", &what),
+    }
+}
+
+
+/// `DateTime<Utc>` must print what `DateTime<FixedOffset>` with offset 0 prints (audit 2, M2): both go through
+/// `self.offset.fix()`; `Utc::fix` is `FixedOffset::east_opt(0)`
+fn check_utc_instantiation(c: &mut Ctx, v: &Val, sf: usize, use_z: bool, fixed_text: &str) {
+    if v.off != 0 {
+        return;
+    }
+    let u: DateTime<Utc> = Utc.from_utc_datetime(&v.utc);
+    if Utc.fix().local_minus_utc() != 0 || u.offset().fix() != *v.dt.offset() {
+        c.fail("Utc::fix is not the zero offset", &val_args(v));
+    }
+    match guard(|| (u.to_rfc3339_opts(SFS[sf], use_z), u.to_rfc3339())) {
+        Ok((t, plain)) => {
+            if t != fixed_text {
+                c.fail("DateTime<Utc> renders differently from DateTime<FixedOffset> with offset 0", &format!("{} sf={} z={}: {:?} vs {:?}", val_args(v), sf, use_z, t, fixed_text));
+            }
+            check_rendering(c, v, sf, use_z, &t);
+            match guard(|| v.dt.to_rfc3339()) {
+                Ok(p) if p == plain => check_rendering(c, v, 4, false, &plain),
+                other => c.fail("DateTime<Utc>::to_rfc3339 differs from DateTime<FixedOffset>::to_rfc3339 with offset 0", &format!("{} {:?} vs {:?}", val_args(v), plain, other)),
+            }
+            c.count("render:DateTime<Utc>");
+        }
+        Err(()) => c.fail("to_rfc3339_opts panicked on a DateTime<Utc>", &val_args(v)),
+    }
+}
+
+/// whole-minute zones for the `DateTime<Local>` stream: POSIX strings (constant or with a DST rule) and zone files
+/// with :30 / :45 / :00 offsets, east and west, including a half-hour DST shift (Lord Howe) and ±hh:mm extremes
+const LOCAL_TZS: &[&str] = &[
+    "UTC0", "IST-5:30", "NPT-5:45", "NST3:30NDT,M3.2.0,M11.1.0", "<+1245>-12:45<+1345>,M9.5.0/2:45,M4.1.0/3:45", "<-1159>11:59", "<+2359>-23:59",
+    "Asia/Kathmandu", "America/St_Johns", "Australia/Lord_Howe", "Europe/London", "Pacific/Chatham", "America/Caracas",
+];
+
+type LocalRow = (usize, usize, bool, Result<(i32, String, String, String), ()>);
+
+/// `DateTime<Local>::to_rfc3339_opts` / `to_rfc3339` under `TZ=tz` on a fresh thread (fresh zone cache): for each
+/// value the offset `Local` chose, its text, the text of `fixed_offset()` and the plain `to_rfc3339()`
+fn local_rows(tz: &str, vals: Vec<(NaiveDateTime, usize, bool)>) -> Option<Vec<LocalRow>> {
+    let old = std::env::var("TZ").ok();
+    std::env::set_var("TZ", tz);
+    let out = std::thread::spawn(move || {
+        vals.iter()
+            .enumerate()
+            .map(|(i, (utc, sf, z))| {
+                let r = guard(|| {
+                    let l: DateTime<Local> = Local.from_utc_datetime(utc);
+                    let fx = l.fixed_offset();
+                    (l.offset().fix().local_minus_utc(), l.to_rfc3339_opts(SFS[*sf], *z), fx.to_rfc3339_opts(SFS[*sf], *z), l.to_rfc3339())
+                });
+                (i, *sf, *z, r)
+            })
+            .collect::<Vec<LocalRow>>()
+    })
+    .join()
+    .ok();
+    match old {
+        Some(v) => std::env::set_var("TZ", v),
+        None => std::env::remove_var("TZ"),
+    }
+    out
+}
+
+fn local_instantiation(c: &mut Ctx) {
+    let per_zone = c.n(600, 6_000) as usize;
+    for tz in LOCAL_TZS {
+        let mut vs: Vec<Val> = vec![];
+        while vs.len() < per_zone {
+            let v = gen_val(c);
+            // keep the wall clock inside the supported range whatever the zone adds (|offset| < 24 h)
+            if v.utc.date() > NaiveDate::MIN.succ_opt().unwrap() && v.utc.date() < NaiveDate::MAX.pred_opt().unwrap() {
+                vs.push(v);
+            }
+        }
+        let args: Vec<(NaiveDateTime, usize, bool)> = vs.iter().map(|v| (v.utc, c.rng.below(5) as usize, c.rng.chance(1, 2))).collect();
+        let Some(rows) = local_rows(tz, args) else {
+            c.fail("the DateTime<Local> batch died", tz);
+            continue;
+        };
+        let mut whole = 0u64;
+        let mut offs: std::collections::BTreeSet<i32> = Default::default();
+        for (i, sf, z, r) in rows {
+            let v0 = &vs[i];
+            match r {
+                Err(()) => c.fail("DateTime<Local>: from_utc_datetime / to_rfc3339_opts panicked", &format!("TZ={} {:?}", tz, v0.utc)),
+                Ok((off, lt, ft, plain)) => {
+                    let Some(fo) = FixedOffset::east_opt(off) else {
+                        c.fail("Local chose an offset FixedOffset refuses", &format!("TZ={} {}", tz, off));
+                        continue;
+                    };
+                    let v = Val { dt: fo.from_utc_datetime(&v0.utc), utc: v0.utc, ts: v0.ts, nano: v0.nano, off };
+                    if lt != ft {
+                        c.fail("DateTime<Local> renders differently from its fixed_offset()", &format!("TZ={} {} sf={} z={}: {:?} vs {:?}", tz, val_args(&v), sf, z, lt, ft));
+                    }
+                    // the model is asked about exactly the zone-aware value `Local` built
+                    c.op(&format!("r3.opts {} {} {}", val_args(&v), sf, b01(z)), &hex(lt.as_bytes()));
+                    c.op(&format!("r3.to {}", val_args(&v)), &hex(plain.as_bytes()));
+                    check_rendering(c, &v, sf, z, &lt);
+                    check_rendering(c, &v, 4, false, &plain);
+                    if off % 60 == 0 {
+                        whole += 1;
+                    }
+                    offs.insert(off);
+                    c.count("render:DateTime<Local>");
+                }
+            }
+        }
+        c.count(&format!("render:DateTime<Local>:TZ={} offsets met {:?}", tz, offs));
+        // the constant zones must really have been in force (a `Local` that fell back to UTC would make the stream vacuous)
+        let stated = [("IST-5:30", 19800), ("NPT-5:45", 20700), ("<-1159>11:59", -43140), ("<+2359>-23:59", 86340)];
+        if let Some((_, want)) = stated.iter().find(|(n, _)| n == tz) {
+            if offs.iter().any(|o| o != want) || offs.is_empty() {
+                c.fail("harness: Local did not apply the constant offset the TZ string states (stream is vacuous)", &format!("TZ={} {:?}", tz, offs));
+            }
+        }
+        if whole == 0 {
+            c.fail("harness: a zone of the DateTime<Local> stream never gave a whole-minute offset (stream is vacuous)", tz);
+        }
+    }
+}
+
+/// `SecondsFormat::__NonExhaustive` is a doc-hidden variant a caller can name; `write_rfc3339` answers it with
+/// `unreachable!()`.  It is outside "the five precision options" of the property (declared in props/C10.json):
+/// the panic is confirmed and counted as the documented case, never reported as a failure; should a later
+/// version print something instead, that is counted too.
+fn non_exhaustive_variant(c: &mut Ctx) {
+    for _ in 0..8 {
+        let v = gen_val(c);
+        let z = c.rng.chance(1, 2);
+        let r = guard(|| v.dt.to_rfc3339_opts(SecondsFormat::__NonExhaustive, z));
+        c.count(match r {
+            Err(()) => "render:__NonExhaustive:documented-panic (outside the five precisions)",
+            Ok(_) => "render:__NonExhaustive:printed-something (outside the five precisions)",
+        });
     }
 }
 
@@ -442,7 +589,8 @@ fn renderings(c: &mut Ctx) {
                         if i < 4 {
                             c.sample(&format!("to_rfc3339_opts({}, {:?}, {}) = {}", val_args(&v), SFS[sf], z, s));
                         }
-                        check_rendering(c, &v, sf, z, &s)
+                        check_rendering(c, &v, sf, z, &s);
+                        check_utc_instantiation(c, &v, sf, z, &s)
                     }
                     Err(()) => c.fail("to_rfc3339_opts panicked", &format!("{} {} {}", val_args(&v), sf, z)),
                 }
@@ -505,9 +653,14 @@ fn gen_string(c: &mut Ctx, wild: u64) -> String {
         }
         _ => {
             s.push('.');
-            let nd = match c.rng.below(5) {
-                0 => *c.rng.pick(&[1u64, 3, 6, 9, 10, 12, 18, 19, 20, 30]),
-                _ => 1 + c.rng.below(12),
+            // occasionally far more digits than any fixed buffer: the digit-skipping loop is unbounded
+            let nd = match c.rng.below(2000) {
+                0 => 5000,
+                1..=5 => 200,
+                _ => match c.rng.below(5) {
+                    0 => *c.rng.pick(&[1u64, 3, 6, 9, 10, 12, 18, 19, 20, 30]),
+                    _ => 1 + c.rng.below(12),
+                },
             };
             for k in 0..nd {
                 let ch = if k >= 9 && c.rng.chance(1, 2) { b'9' } else { b'0' + c.rng.below(10) as u8 };
@@ -563,7 +716,32 @@ const NEAR_MISSES: &[&str] = &[
     "2015-01-20TT17:35:20Z", "2015-01-20T 17:35:20Z", "2015-01-20  17:35:20Z", "2015-01-20\t17:35:20Z", "2015-01-20_17:35:20Z",
     "2015-01-20\u{a0}17:35:20Z", "2015-01-20\u{3000}17:35:20Z", "2015 -01-20T17:35:20Z", "2015- 01-20T17:35:20Z", "2015-01-20T17 :35:20Z",
     "2015-01-20T17: 35:20Z", "2015-01-20T+7:35:20Z", "2015-01--2T17:35:20Z", "2015-+1-20T17:35:20Z", "Z", "T", "-", "+00:00", "é", "\u{2212}",
+    // audit 2, L1: shapes the generators did not produce - NUL / control bytes, cuts after U+2212, a multi-byte
+    // character inside the offset digits, non-ASCII digits after nine ASCII ones
+    "2015-01-20T17:35:20Z\0", "\02015-01-20T17:35:20Z", "2015-01-20T17:35:20\0Z", "2015-01-20\017:35:20Z", "2015-01-20T17:35:20Z\n", "2015-01-20T17:35:20Z\r\n",
+    "2015-01-20\u{b}17:35:20Z", "2015-01-20\r17:35:20Z", "2015-01-20\n17:35:20Z", "2015-01-20\u{7f}17:35:20Z", "2015-01-20\u{c}17:35:20Z", "2015-01-20\u{2003}17:35:20Z",
+    "2015-01-20T17:35:20.5\u{200b}Z", "2015-01-20T17:35:20zz", "2015-01-20T17:35:20+08:00\u{2212}",
+    "2015-01-20T17:35:20\u{2212}", "2015-01-20T17:35:20\u{2212}0", "2015-01-20T17:35:20\u{2212}08", "2015-01-20T17:35:20\u{2212}08:", "2015-01-20T17:35:20\u{2212}08:0",
+    "2015-01-20T17:35:20\u{2212}08:0é", "2015-01-20T17:35:20+0é:00", "2015-01-20T17:35:20+é0:00", "2015-01-20T17:35:20+08\u{ff1a}00", "2015-01-20T17:35:20\u{2212}\u{2212}08:00",
+    "2015-01-20T17:35:20+-08:00", "2015-01-20T17:35:20\u{2213}08:00", "2015-01-20T17:35:20\u{2212}24:00", "2015-01-20T17:35:20\u{2212}23:59", "2015-01-20T17:35:20+00:99",
+    "2015-01-20T17:35:20.٠Z", "2015-01-20T17:35:20.1٠Z", "2015-01-20T17:35:20.123456789١Z", "2015-01-20T17:35:20.1234567890١Z", "２015-01-20T17:35:20Z", "201٥-01-20T17:35:20Z",
+    "0000-02-30T00:00:00Z", "0100-02-29T00:00:00Z", "0400-02-29 24:00:00Z", "0400-02-29 23:60:00Z", "0000-02-29t00:00:60z", "9999-12-31T23:59:60.999999999999-23:59",
 ];
+
+/// near misses too long for a literal (audit 2, L1): fractions far beyond any fixed digit budget - a reader that
+/// bounds the digit-skipping loop, or overflows while skipping, fails here
+fn long_probes() -> Vec<String> {
+    let mut v = vec![];
+    for n in [31usize, 64, 255, 256, 257, 1000, 4096, 65_536, 100_000] {
+        v.push(format!("2015-01-20T17:35:20.{}Z", "9".repeat(n)));
+        v.push(format!("2015-01-20T17:35:20.{}1\u{2212}23:59", "0".repeat(n)));
+        v.push(format!("2015-01-20T17:35:60.{}+23:59", "123456789".repeat(n / 9 + 1)));
+        v.push(format!("2015-01-20T17:35:20.{}", "5".repeat(n)));
+        v.push(format!("2015-01-20T17:35:20.{}\0Z", "5".repeat(n)));
+        v.push(format!("2015-01-20T17:35:20.{}٣Z", "5".repeat(n)));
+    }
+    v
+}
 
 fn judge_string(c: &mut Ctx, class: &str, text: &str) {
     let r = guard(|| DateTime::parse_from_rfc3339(text));
@@ -670,6 +848,9 @@ fn strings(c: &mut Ctx) {
         judge_string(c, "near-miss:upper", &s.to_uppercase());
         judge_string(c, "near-miss:lower", &s.to_lowercase());
     }
+    for s in long_probes() {
+        judge_string(c, "near-miss:long-fraction", &s);
+    }
     // every single edit of a few valid strings of each shape, at every position
     for base in ["2015-01-20T17:35:20-08:00", "1996-12-19t16:39:57.5z", "0000-02-29 23:59:60.123456789\u{2212}23:59", "9999-12-31T00:00:00.000000000001+00:00", "2024-02-29T12:00:00Z"] {
         mutations(c, base, true, 0);
@@ -748,5 +929,7 @@ pub fn run(c: &mut Ctx) {
         }
     }
     renderings(c);
+    local_instantiation(c);
+    non_exhaustive_variant(c);
     strings(c);
 }
